@@ -96,6 +96,8 @@ def r1_r2(ctx: Ctx, d: Decider) -> Set[str]:
                 continue          # idempotence guard
             if text.startswith('tag not in ') and truth:
                 continue
+            if text.startswith('tag in ') and not truth:
+                continue
             if any(text == f'{x} in {a}' and not truth for a in accs for x in target_names_in(n)) or (text.startswith('tag in ') and not truth):
                 continue          # the same idempotence guard spelled `if tag in acc: continue`
             extra.append((text, truth))
@@ -325,7 +327,7 @@ def r5_survive(ctx: Ctx, eng: Decider, leg: Decider, acc) -> None:
         if not (isinstance(v, ast.Tuple) and len(v.elts) == 4):
             continue
         info = v.elts[3]
-        label = f'return:L{"engine" if any(("_cached_engine is not None", True) == x for x in fl.cfg.guard_literals(r)) else "legacy"}:{src(v.elts[1])[:14]}:{src(info)[:10]}'
+        label = f'return:L{"engine" if any(("_cached_engine is None", False) == x for x in fl.cfg.guard_literals(r)) else "legacy"}:{src(v.elts[1])[:14]}:{src(info)[:10]}'
         if isinstance(info, ast.Constant) and info.value is None:
             g = fl.cfg.guard_literals(r)
             ok = any((not truth) and ('tags' in t) for t, truth in g)
